@@ -855,5 +855,30 @@ async fn process_plan(
     Ok((results, failed))
 }
 //!end
+
+// ---- get_header: total (never panics) whatever the names are; it runs inside every task after the process was started ----
+//!const src/app/log.rs STDOUT_FILE
+pub const STDOUT_FILE: &⟦'static ⟧str = "stdout.zst";
+//!end
+//!const src/app/log.rs STDERR_FILE
+pub const STDERR_FILE: &⟦'static ⟧str = "stderr.zst";
+//!end
+//!const src/app/log.rs RESET_COLOR
+pub const RESET_COLOR: &⟦'static ⟧str = "\x1b[0m";
+//!end
+//!fn src/app/log.rs get_header rules=R16 props=C04,C20
+pub(crate) fn get_header(filename: &str, target: &str, command: &str, color: bool) -> String {
+    if color {
+        let filename_color = match filename {
+            STDOUT_FILE => "\x1b[38;5;81m",
+            STDERR_FILE => "\x1b[38;5;214m",
+            _ => "",
+        };
+        fmt_opaque()
+    } else {
+        fmt_opaque()
+    }
+}
+//!end
 } // verus!
 fn main() {}
